@@ -65,7 +65,8 @@ class Runtime:
         self.reset(None, {})
 
     def reset(self, sentinel: Any, behaviours: Dict[str, Any], error_builder: Optional[Callable[[Any], Exception]] = None,
-              point: Optional[Callable[[str], Any]] = None, suspend: Optional[Dict[str, int]] = None) -> None:
+              point: Optional[Callable[[str], Any]] = None, suspend: Optional[Dict[str, int]] = None, yield_once: bool = False) -> None:
+        self.yield_once = yield_once
         self.log: List[Dict[str, Any]] = []
         self.sentinel = sentinel
         self.behaviours = behaviours
@@ -110,12 +111,17 @@ class Runtime:
 
     async def acall(self, key: str, bound: Dict[str, Any], ctx: Any) -> Any:
         tag = bound.get('tag')
+        if self.yield_once:
+            # the coroutine method really suspends once BEFORE it records its execution, so that a dispatcher which stops
+            # waiting for an element (e.g. fire-and-forget notifications) is observable in the execution log
+            await asyncio.sleep(0)
         self.events.append(['start', key, tag])
         entry = self._record(key, bound, ctx)
         try:
-            n = self.suspend.get(f"tag:{tag}", self.suspend.get(key, 0)) if not isinstance(tag, (list, dict)) else 0
-            for i in range(n):
-                await self.point(f"{key}[{tag}]#{i}")
+            if self.point is not None:
+                n = self.suspend.get(f"tag:{tag}", self.suspend.get(key, 0)) if not isinstance(tag, (list, dict)) else 0
+                for i in range(n):
+                    await self.point(f"{key}[{tag}]#{i}")
             return self._behave(key, entry)
         finally:
             self.events.append(['end', key, tag])
@@ -214,7 +220,12 @@ def build_view(mspec: Dict[str, Any], extra_members: bool = False) -> Any:
     py = _pyname(key)
     src, names = sig_source(mspec['params'], leading_self=True)
     bound = '{' + ', '.join(f'{n!r}: {n}' for n in names) + '}'
-    if mspec['flavour'] == 'aview':
+    if mspec['flavour'] == 'aview' and mspec.get('scratch'):
+        # the view instance is used as per-request scratch space across a suspension (what per-request instances are for)
+        meth = (f"    async def {py}({src}):\n        self._scratch = dict({bound})\n"
+                f"        r = await _RT.acall({key!r}, {bound}, self._ctx)\n"
+                f"        if isinstance(r, dict) and 'args' in r:\n            r['args'] = self._scratch\n        return r\n")
+    elif mspec['flavour'] == 'aview':
         meth = f"    async def {py}({src}):\n        return await _RT.acall({key!r}, {bound}, self._ctx)\n"
     else:
         meth = f"    def {py}({src}):\n        return _RT.call({key!r}, {bound}, self._ctx)\n"
